@@ -87,6 +87,10 @@ JointPerMember(P, E, O, xs) ==
     logvar |-> [i \in 1..E |-> [r \in 1..Len(xs[i]) |-> LogVarOf(P, i, O)]],
     shape  |-> << E, Len(xs[1]), O >> ]
 
+(* __call__ accepts a batch (rank 2) or one batch per member (rank 3); a single vector (rank 1) *)
+(* is rejected loudly (ValueError) - member views of a vector are slices of the 1-row batch   *)
+CallAccepts(rank) == rank \in {2, 3}
+
 (* -------------------------------- base_predict / base_distribution (views) --- *)
 BatchShape(kind, n) == IF kind = "vector" THEN << >> ELSE << n >>
 (* deviation "vector_row0": on a single vector every output's bound is applied *)
@@ -165,6 +169,7 @@ Expected(i) ==
        lvrank  |-> [m \in 1..cfg.E |-> [k \in 1..cfg.O |-> LvRank(par.lb[m][k])]],
        member_mean |-> M.mean, member_mean_shape |-> M.meanShape, member_var_shape |-> M.varShape,
        dist_batch_shape |-> M.batchShape, dist_event_shape |-> M.eventShape,
+       call_accepts_vector |-> CallAccepts(1),
        agg_mean |-> A.mean, agg_epi |-> A.epi, agg_vcoef |-> A.vcoef, agg_shape |-> A.shape ]
 
 Emit(i) == EMIT => PrintT(<<"EMIT", ToJson([cfg |-> cfg, par |-> par, inp |-> inp, member |-> i, exp |-> Expected(i)])>>)
